@@ -175,6 +175,11 @@ def execute(case):
     pr = _random.Random(perm + 17)
     preamble = [{"family": pr.choice(PREAMBLE_FAMILIES), "seed": pr.randrange(2**31), "k": [pr.randrange(64) for _ in range(8)]}
                 for _ in range(2)]
+    # families whose keys have several equal-but-differently-typed spellings (trait `spelling`, selected by k[0]): the
+    # junk that precedes the batch in W1 contains the same family in the next spelling
+    for c in batch:
+        if "spelling" in scenarios.TRAITS.get(c["family"], ()):
+            preamble.append({"family": c["family"], "seed": c["seed"], "k": [c["k"][0] + 1] + list(c["k"][1:])})
     runs = lambda idx, tag: [{"slot": i, "tag": tag, "case": batch[i]} for i in idx]  # noqa: E731
     jobs = {
         "W0": ({"runs": runs(order, "W0") + runs(order[:1], "W0'")}, 0, False),
